@@ -215,6 +215,25 @@ def run(rep, tier, seed):
                     if not np.all(np.abs(got - (ref + d)) <= tol):
                         fails.append((case, f"{form} + ({d}) with the literal c = {cap} evaluates to {got} ({label}) at z = {list(zs)}, "
                                             f"the documented value is {ref + d}"))
+    # integer literals of size 2e9 as coefficients of piecewise functions: the 0/1 masks of the derivative rules times the literal
+    # must not be evaluated in 32-bit integers (two terms of 2e9 each sum to 4e9 > 2**31)
+    try:
+        big = 2000000000.0
+        gmb = lang.GModel("AE", [("x", [1.5, 0.5], None)], [],
+                          [("e0", "alg", ("sub", ("add", ("mul", ("num", big), ("sat", ("var", 0, ("w",)), ("num", 0.0), ("num", 2.0))),
+                                                   ("mul", ("num", big), ("sat", ("var", 0, ("w",)), ("num", 1.0), ("num", 3.0)))), ("num", 1.0)), None)])
+        bb = pipeline.Built(gmb); bb.add_inline()
+        xb = np.array([1.5, 0.5])
+        Jexp = np.diag([2 * big, big])                                   # x0 = 1.5 inside both bands, x1 = 0.5 inside the first only
+        for label, (nd, eqs, y0) in bb.backends.items():
+            nlit += 1
+            Jb = nd.J(xb.copy(), nd.p); Jb = Jb.toarray() if hasattr(Jb, "toarray") else np.asarray(Jb)
+            if not np.allclose(Jb, Jexp, rtol=1e-12):
+                fails.append((dict(equation="2000000000*Saturation(x, 0, 2) + 2000000000*Saturation(x, 1, 3) - 1", x=[1.5, 0.5]),
+                              f"derivative of the Saturation terms with integer coefficients 2000000000 ({label}): J = {Jb.tolist()}, "
+                              f"the derivative of the documented function is {Jexp.tolist()}"))
+    except Exception as ex:  # noqa
+        fails.append((dict(equation="2000000000*Saturation(x, 0, 2) + 2000000000*Saturation(x, 1, 3) - 1"), f"raised {type(ex).__name__}: {str(ex)[:100]}"))
     rep.cov["literal_argument_evaluations"] = nlit
     try:
         answers = run_driver(lines)
